@@ -341,3 +341,66 @@ func (e *c06Env) streamCreditOwed() (int64, uint32) {
 	}
 	return worst, at
 }
+
+// openPair: two RoundTrips started one after the other; the first is held in the hook between
+// its stream id allocation and its HEADERS write (writeRequest's streamf callback) while the
+// second is started. reqHeaderMu covers id allocation AND header write, so the second one cannot
+// get an id before the first one's HEADERS are out: ids reach the wire in order. Reported as two
+// plain open operations (tokens / frames split by stream).
+func (e *c06Env) openPair(a, b c06Op) (toks [2]string, sts [2]*c06Stream) {
+	sa := e.startRoundTrip(a.a, a.flag, a.b, c06Shape{head: a.head, trailer: a.trlp1 - 1, delay: true})
+	e.opened = append(e.opened, sa)
+	sts[0] = sa
+	released := false
+	release := func() {
+		if !released {
+			released = true
+			close(sa.hookGate)
+		}
+	}
+	defer release()
+	select {
+	case cs := <-sa.stCh:
+		e.register(sa, cs)
+	case r := <-sa.respCh:
+		sa.gotRes, sa.res = true, r.res
+	case <-time.After(c06Wait):
+		e.timeouts++
+		e.cur = append(e.cur, "T")
+	}
+	sb := e.startRoundTrip(b.a, b.flag, b.b, c06Shape{head: b.head, trailer: b.trlp1 - 1})
+	e.opened = append(e.opened, sb)
+	sts[1] = sb
+	// while the first request sits between id allocation and header write the second one must
+	// not get anywhere; give it a moment to try
+	if sa.cs != nil {
+		select {
+		case cs := <-sb.stCh:
+			e.register(sb, cs)
+			e.collect(func() bool { return sb.hdrDone }, 200*time.Millisecond)
+		case <-time.After(15 * time.Millisecond):
+		}
+	}
+	release()
+	// (the second stream has to be known before any of its frames is booked)
+	if sb.cs == nil {
+		select {
+		case cs := <-sb.stCh:
+			e.register(sb, cs)
+		case r := <-sb.respCh:
+			sb.gotRes, sb.res = true, r.res
+		case <-time.After(c06Wait):
+			e.timeouts++
+			e.cur = append(e.cur, "T")
+		}
+	}
+	if sa.cs != nil {
+		e.collect(func() bool { return sa.hdrDone }, c06Wait)
+	}
+	if sb.cs != nil {
+		e.collect(func() bool { return sb.hdrDone }, c06Wait)
+	}
+	e.afterOp(false)
+	toks[0], toks[1] = sa.openToken(), sb.openToken()
+	return
+}
